@@ -259,28 +259,35 @@ MayIgnoreOrStep(sys, s, a) ==
 (* C10: the image of a state under a permutation of actor identities.      *)
 (* plan[i+1] = new Id of actor i.  Applied CONSISTENTLY: actor slots,      *)
 (* timers, random choices and crash flags move to the new index; message   *)
-(* endpoints are renamed.  (Local states, message payloads and the history *)
-(* of the table systems carry no Ids.)                                     *)
+(* endpoints are renamed.  (Local states, message payloads and random     *)
+(* values carry Ids in the "ids" systems only; the history carries none.)                                     *)
 (***************************************************************************)
 PId(plan, id) == IF id + 1 \in DOMAIN plan THEN plan[id + 1] ELSE id
-PEnv(plan, e) == Env(PId(plan, e.src), PId(plan, e.dst), e.msg)
+(* emb = TRUE (systems recorded with wrap = "ids"): local states, message payloads and random values CARRY an Id, namely
+   v % 4 when that is the Id of an actor; it is renamed like every other Id.  Timer values carry none (the library has no
+   Rewrite bound on timers). *)
+PV(plan, emb, v) == IF emb /\ (v % 4) + 1 \in DOMAIN plan THEN v - (v % 4) + PId(plan, v % 4) ELSE v
+PEnvE(plan, emb, e) == Env(PId(plan, e.src), PId(plan, e.dst), PV(plan, emb, e.msg))
+PEnv(plan, e) == PEnvE(plan, FALSE, e)
 PSeq(plan, xs) == [p \in DOMAIN xs |-> xs[CHOOSE i \in DOMAIN plan : plan[i] = p - 1]]
-Permute(plan, s) ==
-  [actors |-> PSeq(plan, s.actors),
+PermuteE(plan, emb, s) ==
+  [actors |-> PSeq(plan, [i \in DOMAIN s.actors |-> PV(plan, emb, s.actors[i])]),
    net |-> [kind |-> s.net.kind,
-            set |-> {PEnv(plan, e) : e \in s.net.set},
-            last |-> {PEnv(plan, e) : e \in s.net.last},
-            bag |-> {<<PEnv(plan, p[1]), p[2]>> : p \in s.net.bag},
-            flows |-> {<<PId(plan, f[1]), PId(plan, f[2]), f[3]>> : f \in s.net.flows}],
+            set |-> {PEnvE(plan, emb, e) : e \in s.net.set},
+            last |-> {PEnvE(plan, emb, e) : e \in s.net.last},
+            bag |-> {<<PEnvE(plan, emb, p[1]), p[2]>> : p \in s.net.bag},
+            flows |-> {<<PId(plan, f[1]), PId(plan, f[2]), [k \in DOMAIN f[3] |-> PV(plan, emb, f[3][k])]>> : f \in s.net.flows}],
    timers |-> PSeq(plan, s.timers),
-   choices |-> PSeq(plan, s.choices),
+   choices |-> PSeq(plan, [i \in DOMAIN s.choices |-> {<<c[1], [k \in DOMAIN c[2] |-> PV(plan, emb, c[2][k])]>> : c \in s.choices[i]}]),
    crashed |-> PSeq(plan, s.crashed),
    hist |-> s.hist]
+Permute(plan, s) == PermuteE(plan, FALSE, s)
 (* the stable sorting permutation of the actor states (Symmetry!Plan) *)
 SortPlan(vals) ==
   [i \in DOMAIN vals |->
      Cardinality({j \in DOMAIN vals : vals[j] < vals[i]}) + Cardinality({j \in DOMAIN vals : j < i /\ vals[j] = vals[i]})]
 Representative(s) == Permute(SortPlan(s.actors), s)
+RepresentativeE(emb, s) == PermuteE(SortPlan(s.actors), emb, s)
 
 -----------------------------------------------------------------------------
 (* Abstraction of a JSON projection of a real state / action *)
